@@ -877,6 +877,16 @@ def _g_int(se, a, kw):
     return V(INT, z3.Const("G_" + q, z3.IntSort()))
 
 
+def _node_set(name):
+    def f(se, a, kw):
+        return ops.mk_setv(STR, ops.UF(name, z3.IntSort(), z3.ArraySort(z3.StringSort(), z3.BoolSort()))(a[0].t))
+    return f
+
+
+SPECFUNS["node_undeclared"] = _node_set("node_undeclared")
+SPECFUNS["node_declared"] = _node_set("node_declared")
+
+
 @specfun("the")
 def _the(se, a, kw):
     """the(x): the value of an Opt[...] that the surrounding clause has established to be present"""
